@@ -96,7 +96,7 @@ def rule_D1(ctx, typer, clsname, nodes_fn="__iter_nodes", edges_fn="__iter_edges
     m2 = _kwarg(ce, "maxlevel", 3)
     n += 1
     mtxt = norm(m) if m is not None else None
-    ok, why = _is_minus_one_of(fe, m2, mtxt)
+    ok, why = _is_minus_one_of(fe, m2, mtxt, typer)
     if ok:
         ctx.inst("D1a", fe, ce, "edge pass depth limit is `%s - 1` when set, None otherwise" % mtxt)
     else:
@@ -163,36 +163,74 @@ def _cfg_nodes_containing(cfg, expr):
     return out
 
 
-def _is_minus_one_of(func, expr, mtxt):
-    """expr denotes None if m is None else m-1 (m given by its source text)"""
+def _is_minus_one_of(func, expr, mtxt, typer=None):
+    """expr denotes `None if m is None else m - 1` (m given by its source text): evaluated by cases
+    (m is None / m is not None) over the function's CFG with a reaching-value dataflow"""
     if mtxt is None:
         return (expr is None or (isinstance(expr, ast.Constant) and expr.value is None)), "node pass unbounded"
     if expr is None:
         return False, "edge pass has no depth limit"
-    cands = []
-    if isinstance(expr, ast.Name):
-        for a in _assignments_to(func, expr.id):
-            cands.append(a.value)
-        if not cands:
-            return False, "`%s` is not assigned in the function" % expr.id
-    else:
-        cands.append(expr)
-    for v in cands:
-        if not isinstance(v, ast.IfExp):
-            return False, "`%s` is not a conditional on %s" % (norm(v), mtxt)
-        nt = none_test(v.test)
-        truthy = norm(v.test) == mtxt
-        if nt is not None and nt[0] == mtxt:
-            when_none, when_set = (v.body, v.orelse) if nt[1] else (v.orelse, v.body)
-        elif truthy:
-            when_none, when_set = v.orelse, v.body  # truthiness form: reported by D2, arithmetic judged here
-        else:
-            return False, "test `%s` is not a None-test of %s" % (norm(v.test), mtxt)
-        if not (isinstance(when_none, ast.Constant) and when_none.value is None):
-            return False, "value when %s is None is `%s`" % (mtxt, norm(when_none))
-        if not (isinstance(when_set, ast.BinOp) and isinstance(when_set.op, ast.Sub) and norm(when_set.left) == mtxt and
-                isinstance(when_set.right, ast.Constant) and when_set.right.value == 1):
-            return False, "value when %s is set is `%s`, not `%s - 1`" % (mtxt, norm(when_set), mtxt)
+
+    def value_ok(v, is_none):
+        """v evaluated in the given case equals the wanted value"""
+        if isinstance(v, ast.IfExp):
+            nt = none_test(v.test)
+            if nt is not None and nt[0] == mtxt:
+                return value_ok(v.body if nt[1] == is_none else v.orelse, is_none)
+            if norm(v.test) == mtxt:  # truthiness form (reported by D2); None is falsy, a set limit is assumed truthy here
+                return value_ok(v.orelse if is_none else v.body, is_none)
+            return False
+        if is_none:
+            return isinstance(v, ast.Constant) and v.value is None
+        return isinstance(v, ast.BinOp) and isinstance(v.op, ast.Sub) and norm(v.left) == mtxt and isinstance(v.right, ast.Constant) \
+            and v.right.value == 1
+    if not isinstance(expr, ast.Name):
+        ok = value_ok(expr, True) and value_ok(expr, False)
+        return ok, "" if ok else "`%s` is not `None if %s is None else %s - 1`" % (norm(expr), mtxt, mtxt)
+    from ..cfg import CFG, forward_dataflow
+    cfg = typer.cfg_of(func) if typer is not None else CFG(func.node, func.body, name=func.where)
+    use_nodes = [cn for cn in cfg.nodes if cn.kind in ("foriter", "stmt", "return") and any(
+        isinstance(x, ast.Call) and norm(x.func).endswith("PreOrderIter") for x in ast.walk(cn.ast.iter if cn.kind == "foriter" else cn.ast))]
+    var = expr.id
+    for is_none in (True, False):
+        def transfer(n, st, is_none=is_none):
+            if st is None:
+                return None
+            if n.kind == "guard":
+                nt = none_test(n.cond)
+                if nt is not None and nt[0] == mtxt and (nt[1] == is_none) != n.outcome:
+                    return None
+                if norm(n.cond) == mtxt and is_none and n.outcome:
+                    return None
+                return st
+            a = n.ast
+            if n.kind == "stmt" and isinstance(a, ast.Assign) and any(isinstance(t, ast.Name) and t.id == var for t in a.targets):
+                return ("val", a.value)
+            if n.kind == "stmt" and isinstance(a, ast.AugAssign) and isinstance(a.target, ast.Name) and a.target.id == var:
+                return ("conflict",)
+            return st
+
+        def join(x, y):
+            if x is None:
+                return y
+            if y is None:
+                return x
+            if x == y or (x[0] == y[0] == "val" and ast.dump(x[1]) == ast.dump(y[1])):
+                return x
+            return ("conflict",)
+        instate = forward_dataflow(cfg, ("unset",), transfer, None, join, equal=lambda p_, q_: p_ == q_ or (
+            p_ is not None and q_ is not None and p_[0] == q_[0] == "val" and ast.dump(p_[1]) == ast.dump(q_[1])))
+        seen = False
+        for cn in use_nodes:
+            st = instate.get(cn.id)
+            if st is None:
+                continue
+            seen = True
+            if st[0] != "val" or not value_ok(st[1], is_none):
+                return False, "when %s %s the edge pass gets `%s`" % (mtxt, "is None" if is_none else "is set",
+                                                                     norm(st[1]) if st[0] == "val" else st[0])
+        if not seen:
+            return False, "the edge traversal is unreachable when %s %s" % (mtxt, "is None" if is_none else "is set")
     return True, ""
 
 
@@ -446,12 +484,24 @@ def rule_D3_escape(ctx, typer, clsname, quoted=True):
     subs = [c for c in walk_own(esc.node) if isinstance(c, ast.Call) and isinstance(c.func, ast.Attribute) and c.func.attr in ("sub", "subn")]
     n += 1
     good = False
+    from .common import resolve_local
     for c in subs:
-        if norm(c.func.value) == "_RE_ESC" and len(c.args) == 2 and not c.keywords and isinstance(c.args[0], ast.Lambda):
-            body = c.args[0].body
-            if isinstance(body, ast.BinOp) and isinstance(body.op, ast.Mod) and isinstance(body.left, ast.Constant) \
-                    and body.left.value == "\\%s" and "group(0)" in norm(body.right):
-                good = True
+        if norm(c.func.value) == "_RE_ESC" and len(c.args) == 2 and not c.keywords and c.func.attr == "sub":
+            repl = resolve_local(esc, c.args[0])
+            if isinstance(repl, ast.Name):
+                r_ = ctx.p.resolve_name(esc.module, repl.id)
+                if r_ is not None and r_[0] == "const":
+                    repl = r_[1]
+            if isinstance(repl, ast.Lambda):
+                body = repl.body
+                if isinstance(body, ast.BinOp) and isinstance(body.op, ast.Mod) and isinstance(body.left, ast.Constant) \
+                        and body.left.value == "\\%s" and "group(0)" in norm(body.right):
+                    good = True
+            elif isinstance(repl, ast.Constant) and repl.value in ("\\\\\\g<0>",):
+                good = True  # template: escaped backslash followed by the whole match
+            text = resolve_local(esc, c.args[1])
+            if not (isinstance(text, ast.Call) and norm(text.func) in ("six.text_type", "str") and len(text.args) == 1):
+                good = False
     if good:
         ctx.inst("D3", esc, esc.node, "every match is replaced by backslash + itself")
     else:
@@ -544,11 +594,32 @@ def rule_D5_structure(ctx, typer, clsname, closing=None, writer="to_dotfile"):
     n = 0
     it = p.func(clsname, "__iter")
     order = []
-    for node in ast.walk(it.node):
-        pass
+    chains = {}
     for st in strip_doc(it.node.body):
         if isinstance(st, ast.Expr) and isinstance(st.value, ast.Yield):
             order.append(("yield", st.value.value))
+        elif isinstance(st, ast.Assign) and isinstance(st.value, ast.Call) and norm(st.value.func) in ("itertools.chain", "chain") \
+                and len(st.targets) == 1 and isinstance(st.targets[0], ast.Name):
+            chains[st.targets[0].id] = st.value
+        elif isinstance(st, (ast.For,)) and (
+                (isinstance(st.iter, ast.Name) and st.iter.id in chains) or
+                (isinstance(st.iter, ast.Call) and norm(st.iter.func) in ("itertools.chain", "chain"))):
+            ch = chains[st.iter.id] if isinstance(st.iter, ast.Name) else st.iter
+            body_ok = len(st.body) == 1 and isinstance(st.body[0], ast.Expr) and isinstance(st.body[0].value, ast.Yield) \
+                and isinstance(st.body[0].value.value, ast.Name) and isinstance(st.target, ast.Name) \
+                and st.body[0].value.value.id == st.target.id
+            for a_ in ch.args:
+                if isinstance(a_, ast.Call) and isinstance(a_.func, ast.Attribute):
+                    order.append(("for", a_.func.attr, body_ok, st))
+                else:
+                    order.append(("other", a_))
+        elif isinstance(st, ast.Expr) and isinstance(st.value, ast.YieldFrom) and isinstance(st.value.value, ast.Call) \
+                and norm(st.value.value.func) in ("itertools.chain", "chain"):
+            for a_ in st.value.value.args:
+                if isinstance(a_, ast.Call) and isinstance(a_.func, ast.Attribute):
+                    order.append(("for", a_.func.attr, True, st))
+                else:
+                    order.append(("other", a_))
         elif isinstance(st, ast.For) and isinstance(st.iter, ast.Call) and isinstance(st.iter.func, ast.Attribute):
             body_ok = len(st.body) == 1 and isinstance(st.body[0], ast.Expr) and isinstance(st.body[0].value, ast.Yield) \
                 and isinstance(st.body[0].value.value, ast.Name) and isinstance(st.target, ast.Name) \
